@@ -98,10 +98,11 @@ def contains_array_app(t, arrays: ArrayModel):
 
 
 def check_index_lambda(h, il, node, spec, arrays: ArrayModel, *,
-                       clause_prefix, value_props=("C02",),
+                       clause_prefix, value_props=("C02", "C01"),
                        bounds_props=("C11",), meta_props=("C02",),
                        check_meta=True, spec_shape=None,
-                       shape_props=("C02", "C03"), premise=None):
+                       shape_props=("C02", "C03"), premise=None,
+                       cast_identity=False):
     """Obligations for one lowered node.
 
     :arg il: the IndexLambda returned by the code under verification
@@ -148,7 +149,7 @@ def check_index_lambda(h, il, node, spec, arrays: ArrayModel, *,
     else:
         vbox = box
     D = Den(arrays, il.bindings, lambda a: h.interp.getattr(a, "shape"),
-            size_param=size_param_term)
+            size_param=size_param_term, cast_identity=cast_identity)
     env = {f"_{d}": v for d, v in enumerate(ivars)}
     got = D.top(il.expr, env)
     want = spec(ivars)
